@@ -153,7 +153,11 @@ func cmdVerify(args []string) {
 			bad++
 			continue
 		}
-		V.Solver.Discharge(E.TS, r.Obls, tmo, false)
+		tsr := E.TS
+		if r.TS != nil {
+			tsr = r.TS
+		}
+		V.Solver.Discharge(tsr, r.Obls, tmo, false)
 		np := 0
 		for _, o := range r.Obls {
 			if o.Status == "proved" {
